@@ -175,6 +175,21 @@ def run(ctx):
                           f"class G whose __init__ raises ValueError for a negative argument, hash function {hf}: {why}",
                           replay="from edgegraph.structure.singleton import *\nM = semi_singleton_metaclass()\nclass G(metaclass=M):\n    def __init__(self, x):\n        if x < 0: raise ValueError\n        self.x = x\n"
                                  "for _ in range(2):\n    try: G(-1)\n    except ValueError: print('raised')\nprint(check_semi_singleton_entry_exists(G, -1), list(get_all_semi_singleton_instances(G)))")
+    # ---- a class whose mappings were cleared gets one back through add_mapping: it is that class's mapping and nobody else's
+    for hf in ("None", "first"):
+        try:
+            why = cleared_then_added(h, hf)
+        except Unknown as u:
+            res.ob(False)
+            res.undecide(f"clear then add_mapping hashfunc={hf}: {u}")
+            continue
+        n += 1
+        res.ob(why is None, sig=("cleared-then-added", hf))
+        if why:
+            res.violation("MAP-STEP", MOD + ".add_mapping", f"hashfunc={hf},op=add,after-clear-of-the-same-class",
+                          f"o = A(1); clear_semi_singleton(A); add_mapping(o, 1), hash function {hf}: {why}",
+                          replay="from edgegraph.structure.singleton import *\nM = semi_singleton_metaclass()\nclass A(metaclass=M):\n    def __init__(self, *a): print('init A', a)\nclass C(metaclass=M):\n    def __init__(self, *a): print('init C', a)\n"
+                                 "o = A(1)\nclear_semi_singleton(A)\nadd_mapping(o, 1)\nprint(A(1) is o, check_semi_singleton_entry_exists(C, 1), list(get_all_semi_singleton_instances(C)))")
     # ---- an instance constructed while its class is still being created (a base class registering a first instance of every
     # subclass from __init_subclass__): it is the live instance for its key from then on
     for hf in ("None", "first"):
@@ -239,6 +254,41 @@ def boot_instance(h, hf):
         items = list(ga.value.items) if ga.kind == "return" and isinstance(ga.value, Seq) else None
         if items is None or len(items) != 1 or items[0] is not boots[i]:
             return f"get_all({cn}) lists {ga!r}; exactly the one live instance is expected"
+    return None
+
+
+def cleared_then_added(h, hf):
+    h.reset()
+    m = h.w.load_text("verif_c17", SRC.replace("@HF@", hf))
+    h.w.mods.pop("verif_c17", None)
+    g = m.globals
+    h.settle()
+    log = g["LOG"]
+    check, get_all = g["check_semi_singleton_entry_exists"], g["get_all_semi_singleton_instances"]
+    o = h.call(g["A"], 1)
+    if o.kind != "return" or not isinstance(o.value, Obj):
+        return f"A(1) gives {o!r}"
+    oa = o.value
+    for step, r in (("clear_semi_singleton(A)", h.call(g["clear_semi_singleton"], g["A"])), ("add_mapping(o, 1)", h.call(g["add_mapping"], oa, 1))):
+        if r.kind != "return":
+            return f"{step} raises {r.excname}"
+    inits = len(log.items)
+    for c in ("B", "C", "D"):
+        r = h.call(check, g[c], 1)
+        if r.kind != "return" or not (r.value is None or r.value is False):
+            return f"afterwards check({c}, 1) reports {r!r}: the mapping was added for class A only"
+        ga = h.call(get_all, g[c])
+        items = list(ga.value.items) if ga.kind == "return" and isinstance(ga.value, Seq) else None
+        if items is None or items:
+            return f"afterwards get_all({c}) lists {ga!r}: the mapping was added for class A only"
+    r = h.call(check, g["A"], 1)
+    if r.kind != "return" or not (r.value is True or r.value is oa):
+        return f"afterwards check(A, 1) reports {r!r}: the mapping that add_mapping made is alive"
+    r = h.call(g["A"], 1)
+    if r.kind != "return" or r.value is not oa:
+        return f"afterwards A(1) gives {r!r} instead of the instance mapped to that key"
+    if len(log.items) != inits:
+        return "afterwards A(1) ran __init__ again for a live key"
     return None
 
 
